@@ -15,7 +15,9 @@ import (
 var payloadValid = []string{"a", "bc", "key", " ", "  ", "\n", "\n\n", startM, endM, "\xc3\x97", redactedM, "?", "é", "日本", "\U0001f6d1",
 	"\"", "`", "\\", "\t", "\x00", "\x7f", "\x1b", "\r", "\ufffd", "\ufeff", "\u2028", "\u00ad", "a\x7fb", "%", "%d", "0", "-1", "x=1", "‹un›", "›‹", "<nil>", "Z",
 	// valid runes whose encoding shares bytes with the markers (E2 80 B9 / E2 80 BA)
-	"º", "¹", "‰", "※", "€", "\u0080", "к", "☺", "⁹", "₺"}
+	"º", "¹", "‰", "※", "€", "\u0080", "к", "☺", "⁹", "₺",
+	// ... or ends in the last two bytes of a marker (E3 80 BA, E1 80 BA, F0 90 80 BA, E3 80 B9)
+	"〺", "\u103a", "\U0001003a", "〹"}
 var payloadInvalid = []string{"\xe2", "\xe2\x80", "\x80\xb9", "\x80\xba", "\xb9", "\xff", "\xf0\x9f", "\xc3", "\xe2\x80\xe2\x80\xb9"}
 
 type genOpts struct {
@@ -490,7 +492,7 @@ func randStep(r *Rng, depth int, o genOpts) *D {
 
 // ---- formats ----------------------------------------------------------------------
 
-var litPieces = []string{"x", "lit ", "=", ":", " ", "\n", startM, endM, redactedM, "é", "%%", "\t", "(", ")", "?", "nº", "‰", "※", "¹", "ok ☺", "⁹", "\ufffd", "\r", "\x7f"}
+var litPieces = []string{"x", "lit ", "=", ":", " ", "\n", startM, endM, redactedM, "é", "%%", "\t", "(", ")", "?", "nº", "‰", "※", "¹", "ok ☺", "⁹", "\ufffd", "\r", "\x7f", "n〺", "\u103a"}
 var litInvalid = []string{"\xe2", "\xe2\x80", "\x80\xb9", "\xff"}
 
 func randLit(r *Rng, o genOpts) string {
